@@ -155,7 +155,13 @@ func Drain(it sstables.SSTableIteratorI, limit int) ([]Pair, error) {
 		if len(out) > limit {
 			return out, fmt.Errorf("iterator yields more than %d entries", limit)
 		}
-		out = append(out, Pair{append([]byte{}, k...), v})
+		// both are copied: an iterator may hand out buffers that are only valid until its next step. nil (tombstone /
+		// nil record) stays nil, empty stays empty.
+		var vc []byte
+		if v != nil {
+			vc = append([]byte{}, v...)
+		}
+		out = append(out, Pair{append([]byte{}, k...), vc})
 	}
 }
 
